@@ -34,7 +34,10 @@ from vmon.oracles import c18_oracle as orc
 
 PROP = "C18"
 RULE = ("cases = pairs of generated particle lists (1..200 particles each, 1..4 tomograms per list, shared/partly disjoint "
-        "tomogram sets, coincident lists, non-zero shifts, stratified position/orientation/index classes) x k in 1..5 x "
+        "tomogram sets, coincident lists, non-zero shifts, stratified position/orientation/index classes; planted: consecutive "
+        "tomogram / subtomogram numbers at 1e5, 2**24, 2**31, 2**53, list sizes 2**k-1, 2**k, 2**k+1 and 200, candidate pairs whose "
+        "distances differ by 3e-7..1e-5 relative at coordinates of 1e3..2**24, exact duplicate query particles, same objects rewritten "
+        "or re-tagged in place between calls) x k in 1..5 x "
         "pixel size x one rigid motion (Q,t) per tomogram; non-trivial = some query particle has at least 2 candidates in its "
         "tomogram (optimality is a real choice) and shifts are non-zero; distinct by digest of (class, sizes, tomogram sets, "
         "k, pixel, index kinds, motion kinds, first rows of both lists)")
@@ -53,6 +56,8 @@ ASSUMPTIONS = [
     "distance ties: a call is not judged when, for some query, two consecutive sorted brute-force distances among the "
     "first k+1 differ by <= 1e-9*max(1,d); generated cases keep a margin of 1e-7 and are regenerated otherwise",
     "completely disjoint tomogram sets: get_nn_stats raises ValueError (nothing to concatenate); not judged",
+    "only feature_id='tomo_id' is judged: the statement says 'within the same tomogram'; grouping by another column is a "
+    "different question about which the property is silent",
     "the statement is about the lists as they are at the time of the call: a Motl object analysed before and rewritten in place "
     "since (same particle count) is judged against brute force on its current positions and orientations",
     "tolerances: lengths 1e-9*max(1, |P|max*pixel); matrix entries 1e-7 (Euler) / 1e-9 (z-image); angular distance 1e-7 "
